@@ -100,6 +100,8 @@ class CBMachine(object):
         self.gosub_stack = []
         self.ended = None
         self.play_octo = 0
+        self.zero_trip = False
+        self.unassigned_reads = 0
 
     def _collect_data(self, stmts):
         for s in stmts:
@@ -115,6 +117,7 @@ class CBMachine(object):
         c = canon(name)
         if c not in self.vars:
             self.vars[c] = "" if c.endswith("$") else 0.0
+            self.unassigned_reads += 1
         return self.vars[c]
 
     def set(self, name, v):
@@ -470,6 +473,8 @@ class CBMachine(object):
                         toks.append(("s", fmt_num(v) + " "))
             if not s[1] or s[1][-1][0] != "sep":
                 toks.append(("nl",))
+            if s[2] is not None and not s[1] and "PRINT@-empty-no-newline" in HYPOTHESIS:
+                return
             self.events.append(("print",) + tuple(toks))
         elif k == "if":
             if self.truth(self.ev(s[1])):
@@ -490,6 +495,8 @@ class CBMachine(object):
             if isinstance(a, str) or isinstance(b, str) or isinstance(st, str):
                 raise CBError("TM", "FOR")
             self.set(s[1], a)
+            if (st >= 0 and a > b) or (st < 0 and a < b):
+                self.zero_trip = True      # Color BASIC runs the body once; BASIC09's FOR tests first
             c = canon(s[1])
             self.for_stack = [f for f in self.for_stack if f[0] != c]
             self.for_stack.append((c, b, st, self.cur, self.idx, self.line))
